@@ -53,6 +53,13 @@ enum Flow {
 
 pub trait RefHost {
     fn call(&mut self, imp: &Import, args: &[V], mem: &mut Vec<u8>) -> Result<Option<V>, Trap>;
+
+    /// Like `call`, but the host also sees (and may add its own charges to) the
+    /// energy accumulated so far. At the time of a host call the accumulated
+    /// energy includes the cost of the call instruction itself, which is exactly
+    /// what a metered artifact has charged when the host is entered (a call
+    /// ends a metering segment). Return `Err(Trap::OutOfEnergy)` to stop.
+    fn call_with_energy(&mut self, imp: &Import, args: &[V], mem: &mut Vec<u8>, _energy: &mut u64) -> Result<Option<V>, Trap> { self.call(imp, args, mem) }
 }
 
 #[derive(Clone, Copy, Debug, PartialEq, Eq)]
@@ -181,7 +188,7 @@ impl<'a, H: RefHost> Machine<'a, H> {
         if idx < ni {
             let imp = &self.m.imports[idx as usize];
             self.host_calls += 1;
-            return self.host.call(imp, args, &mut self.mem);
+            return self.host.call_with_energy(imp, args, &mut self.mem, &mut self.energy);
         }
         if self.depth >= self.max_depth {
             return Err(Trap::CallDepth);
